@@ -103,7 +103,10 @@ Definition obs_safe (o : hobs) : bool :=
           (ho_progs o)
   && negb (herr_eqb (ho_err o) HInternal)
   (* the driver's record of the slot contents (which clause 1 compares hashes against) is what the instrument holds *)
-  && list_eqb (opt_eqb Z.eqb) (map Some (ho_hashes o)) (ho_dev o).
+  && list_eqb (opt_eqb Z.eqb) (map Some (ho_hashes o)) (ho_dev o)
+  (* the idle waveform is a segment in use at all times (the idle sequence plays it): slot 0 holds it on the
+     instrument and stays reserved, however many programs with an identical segment came and went *)
+  && opt_eqb Z.eqb (nth 0%nat (ho_dev o) None) (Some IDLE) && (1 <=? nth 0%nat (ho_refs o) 0).
 
 Definition place_corr h r cp t nh nl impl : bool :=
   match find_place {| m_hashes := h; m_refs := r; m_caps := cp; m_total := t |} nh nl, impl with
